@@ -296,6 +296,27 @@ Definition on_segment (xs ys : list R) (j : nat) (x level : R) : Prop :=
 Definition strictly_increasing (xs : list R) : Prop :=
   forall j, (S j < length xs)%nat -> nth j xs 0 < nth (S j) xs 0.
 
+Lemma crossing_in_range (x0 x1 v0 v1 level : R) :
+  x0 < x1 -> (v0 <= level <= v1) \/ (v1 <= level <= v0) -> v1 - v0 <> 0 ->
+  x0 <= x0 + (level - v0) / ((v1 - v0) / (x1 - x0)) <= x1.
+Proof.
+  intros Hd Hbr Hvne.
+  assert (Ex : (level - v0) / ((v1 - v0) / (x1 - x0)) = (level - v0) * (x1 - x0) / (v1 - v0)) by (field; split; lra).
+  rewrite Ex. split.
+  - assert (0 <= (level - v0) * (x1 - x0) / (v1 - v0)).
+    { destruct Hbr as [Hb | Hb].
+      - apply Rmult_le_pos; [nra | left; apply Rinv_0_lt_compat; lra].
+      - replace ((level - v0) * (x1 - x0) / (v1 - v0)) with ((v0 - level) * (x1 - x0) / (v0 - v1)) by (field; lra).
+        apply Rmult_le_pos; [nra | left; apply Rinv_0_lt_compat; lra]. }
+    lra.
+  - assert ((level - v0) * (x1 - x0) / (v1 - v0) <= x1 - x0).
+    { destruct Hbr as [Hb | Hb].
+      - apply Rmult_le_reg_r with (v1 - v0); [lra|]. unfold Rdiv. rewrite Rmult_assoc, Rinv_l by lra. nra.
+      - replace ((level - v0) * (x1 - x0) / (v1 - v0)) with ((v0 - level) * (x1 - x0) / (v0 - v1)) by (field; lra).
+        apply Rmult_le_reg_r with (v0 - v1); [lra|]. unfold Rdiv. rewrite Rmult_assoc, Rinv_l by lra. nra. }
+    lra.
+Qed.
+
 Lemma raw_crossings_sound : forall (xs ys : list R) (level x : R),
   length xs = length ys -> strictly_increasing xs ->
   In x (@raw_crossings RNum xs ys level) -> exists j, on_segment xs ys j x level.
@@ -324,13 +345,11 @@ Proof.
     destruct Hin as [<- | [<- | Hin]]; [| |auto].
     + exists 0%nat. split; [cbn; lia|]. cbn [nth]. split; [lra|]. rewrite Hv, Hl. field. lra.
     + exists 0%nat. split; [cbn; lia|]. cbn [nth]. split; [lra|]. rewrite Hv, Hl. field. lra.
-  - destruct Hin as [<- | Hin]; [|auto].
-    exists 0%nat. split; [cbn; lia|]. cbn [nth].
-    assert (Hvne : v1 - v0 <> 0).
+  - assert (Hvne : v1 - v0 <> 0).
     { intros Hz. apply Em. unfold m. rewrite Hz. unfold Rdiv. ring. }
     assert (Ex : (level - v0) / m = (level - v0) * (x1 - x0) / (v1 - v0)) by (unfold m; field; split; lra).
-    split.
-    + rewrite Ex. split.
+    assert (Hrange : x0 <= x0 + (level - v0) / m <= x1).
+    { rewrite Ex. split.
       * assert (0 <= (level - v0) * (x1 - x0) / (v1 - v0)).
         { destruct Hbr as [Hb | Hb].
           - apply Rmult_le_pos; [nra | left; apply Rinv_0_lt_compat; lra].
@@ -342,8 +361,11 @@ Proof.
           - apply Rmult_le_reg_r with (v1 - v0); [lra|]. unfold Rdiv. rewrite Rmult_assoc, Rinv_l by lra. nra.
           - replace ((level - v0) * (x1 - x0) / (v1 - v0)) with ((v0 - level) * (x1 - x0) / (v0 - v1)) by (field; lra).
             apply Rmult_le_reg_r with (v0 - v1); [lra|]. unfold Rdiv. rewrite Rmult_assoc, Rinv_l by lra. nra. }
-        lra.
-    + fold m. replace (x0 + (level - v0) / m - x0) with ((level - v0) / m) by ring. field. exact Em.
+        lra. }
+    rewrite (Rmax_left _ x0), (Rmin_left _ x1) in Hin by lra.
+    destruct Hin as [<- | Hin]; [|auto].
+    exists 0%nat. split; [cbn; lia|]. cbn [nth]. split; [exact Hrange|].
+    fold m. replace (x0 + (level - v0) / m - x0) with ((level - v0) / m) by ring. field. exact Em.
 Qed.
 
 (* every reported crossing lies on the piecewise-linear graph at the level *)
@@ -376,7 +398,9 @@ Proof.
     { apply Reqb_false. intros Hz.
       assert (v1 - v0 = 0). { apply Rmult_eq_reg_r with (/ (x1 - x0)); [|apply Rinv_neq_0_compat; lra]. rewrite Rmult_0_l. exact Hz. }
       lra. }
-    rewrite Em. left. reflexivity.
+    rewrite Em. left.
+    pose proof (crossing_in_range x0 x1 v0 v1 level Hd ltac:(lra) ltac:(lra)) as Hr.
+    rewrite (Rmax_left _ x0), (Rmin_left _ x1) by lra. reflexivity.
   - assert (Hin : In (nth j (x1 :: xs) 0 + (level - nth j (v1 :: ys) 0) /
                         ((nth (S j) (v1 :: ys) 0 - nth j (v1 :: ys) 0) / (nth (S j) (x1 :: xs) 0 - nth j (x1 :: xs) 0)))
                      (@raw_crossings RNum (x1 :: xs) (v1 :: ys) level)).
